@@ -2,9 +2,10 @@
 import os
 import vlib
 from props import _serde as S
+from props import _bfi
 
 LEVEL = "proof"
-HARNESSES = [("h_serde", "rel")]
+HARNESSES = [("h_serde", "rel"), ("h_bfi", "rel")]
 ASSUMPTIONS = [
     "Address values are modelled as (type byte, base58/base59-decoded bytes); that the C++ text form and these bytes "
     "determine each other (DecodeBase58(EncodeBase58 b) = b on valid addresses) belongs to property C18 and is only "
@@ -45,7 +46,14 @@ META = {
             "compared with a fresh object decoded from the same encoding, incl. progpow hashes. C11_counting_*: the container arithmetic of CountingContext (C12's CountDefs) is the "
             "overhead of the PopData codec (prefix = singleBEValueSize, estimate = esize PopData, running figure = encoded "
             "size); the real CountingContext is driven by op count against PopData::estimateSize/toVbkEncoding().size() with "
-            "limits at the exact boundary +-1 around the 255->256 prefix growth of each kind. Not modelled: BFI wire types, "
+            "limits at the exact boundary +-1 around the 255->256 prefix growth of each kind. BFI bitcoin wire types (C11_bfi_*, "
+            "coq/Bfi): compact size (round trip, size, canonical decoding incl. the non-canonical and MAX_SIZE rejections), "
+            "little-endian integers, Blob<N>, byte vectors/strings, vectors of T, field sequences are modelled, proved "
+            "(codec_ok: round trip with tail, GetSerializeSize = bytes written, whatever decodes is the canonical encoding of "
+            "its value) and compared with the real Serialize/Unserialize/GetSerializeSize templates (harness/h_bfi.cpp) "
+            "on boundary lengths 0,1,252..257,65534..65537, MAX_SIZE+-1 and hostile streams. "
+            "Not modelled: VarInt, bool (decodes any non-zero byte as true), float/double, map/set/pair/shared_ptr, "
+            "LimitedString, BlockLocator, bfi/bitcoin/net messages, the PopData blob inside a wire block, "
             "PopPayouts. Stored "
             "indices are decoded from bytes only (no enc op).",
     "technique": "Coq proof (codec combinators, structural induction) + extraction-based differential correspondence",
@@ -67,6 +75,10 @@ def gen_cases(ctx, n_per_type):
 
 def run(ctx):
     ctx.prove()
+    if ctx.replay and ctx.replay.get("stage") == "bfi":
+        ctx.cov["evaluations"] = _bfi.run(ctx)
+        return
+    bfi_cases = _bfi.run(ctx) if not ctx.replay else 0
     okm, model, mlog = vlib.build_model("Serde")
     okh, hs, hlog = vlib.build_harness(["h_serde"], "rel")
     if not okm:
@@ -163,6 +175,7 @@ def run(ctx):
     boundary_findings(ctx, model, H, c, r)
     memo_sequences(ctx, H, r)
     counting_context(ctx, H, r)
+    ctx.cov["evaluations"] += bfi_cases
 
 
 def counting_context(ctx, H, r, cases=None):
